@@ -21,7 +21,7 @@ from vf.xmodel import build_api, Schema, Rop
 
 SHARDS = {'quick': 16, 'thorough': 64}
 TIMEOUT = {'quick': 1200, 'thorough': 7200}
-MUST_HIT = ['EarlierObject.rechecked', 'Join.loader', 'Canon.permutation', 'Canon.partition-inputs', 'Canon.files',
+MUST_HIT = ['Join.api-reflexive-pairs', 'Join.api-batch-relate', 'EarlierObject.rechecked', 'Join.loader', 'Canon.permutation', 'Canon.partition-inputs', 'Canon.files',
             'Canon.directory-tree', 'Canon.zip', 'Join.api-new', 'Join.api-clone', 'Canon.inferred-schema',
             'Join.null-key', 'Join.duplicate-key', 'Join.dangling-key', 'Join.multi-attribute-key']
 MUST_REACH = ['xtuml/load.py:ModelLoader.populate_connections', 'xtuml/meta.py:Link.compute_lookup_key',
@@ -313,7 +313,8 @@ def api_checks(ctx, rng, schema, pop, expected, m_loaded):
     def created_before(r, si, ti):
         if r.src != r.tgt:
             return True
-        return ti < si
+        # (a row that refers to itself is its own referred row: it exists when its values are applied)
+        return ti <= si
     exp = dict((i, set(p for p in expected[i] if created_before(schema.rops[i], *p)))
                for i in expected)
     def tag(rop=None, exc=None):
@@ -328,6 +329,20 @@ def api_checks(ctx, rng, schema, pop, expected, m_loaded):
         if rop is not None and (rop.src_phrase or rop.tgt_phrase):
             return 'phrased-association'
         return 'links'
+    def narrowed(mx, what):
+        # K1 is "relates across the opposite phrase": on a reflexive association that turns every pair round
+        # and nothing else, so the linked pairs regardless of direction are still the expected ones (a row
+        # referring to itself in particular stays linked to itself); anything else is not K1
+        got = observed_links(mx, schema)
+        for i, r in enumerate(schema.rops):
+            if r.src == r.tgt and (r.src_phrase or r.tgt_phrase):
+                ctx.hit('Join.api-reflexive-pairs')
+                und = lambda ps: set(frozenset(p) for p in ps)
+                if not (und(got[i][0]) == und(got[i][1]) == und(exp[i])):
+                    raise Mismatch('api-new-referential/links',
+                                   'creating the rows through %s: %s: linked (regardless of direction) %r, key join '
+                                   'says %r' % (what, r.describe(), sorted(map(sorted, und(got[i][0]) | und(got[i][1]))),
+                                                sorted(map(sorted, und(exp[i])))))
     # new(**values)
     ctx.hit('Join.api-new')
     m = build_api(schema, xtuml.IntegerGenerator())
@@ -341,10 +356,9 @@ def api_checks(ctx, rng, schema, pop, expected, m_loaded):
     try:
         check_join(ctx, schema, pop, m, exp, 'Join.api-new')
     except Mismatch as e:
+        narrowed(m, 'new(**values)')
         raise Mismatch('api-new-referential/%s' % tag(rop=e.rop), e.what)
-    # clone from the loaded metamodel
-    if reflexive:
-        return
+    # clone from the loaded metamodel (in creation order, so the same pairs as above are expected)
     ctx.hit('Join.api-clone')
     m2 = build_api(schema, xtuml.IntegerGenerator())
     try:
@@ -354,9 +368,44 @@ def api_checks(ctx, rng, schema, pop, expected, m_loaded):
     except xtuml.MetaException as e:
         raise Mismatch('api-clone-referential/%s' % tag(exc=e), 'cloning raised %s: %s' % (type(e).__name__, e))
     try:
-        check_join(ctx, schema, pop, m2, expected, 'Join.api-clone')
+        check_join(ctx, schema, pop, m2, exp, 'Join.api-clone')
     except Mismatch as e:
+        narrowed(m2, 'clone()')
         raise Mismatch('api-clone-referential/%s' % tag(rop=e.rop), e.what)
+
+
+def batch_checks(ctx, schema, pop, expected):
+    '''
+    The rows created through the API while their referential attributes are still ordinary attributes holding
+    the row values, the associations defined afterwards and linked with Association.batch_relate() (the API's
+    way of linking by key values), then formalized: the whole key join is expected, whatever the creation
+    order, multiplicity and phrases (no direction has to be resolved from a phrase on this route).
+    '''
+    import xtuml
+    if any(a in ('self', 'kind') for _, attrs in schema.classes for a, _ in attrs):
+        return
+    ctx.hit('Join.api-batch-relate')
+    m = xtuml.MetaModel(xtuml.IntegerGenerator())
+    for kind, attrs in schema.classes:
+        m.define_class(kind, list(attrs))
+    for kind, name, attrs in schema.uniques:
+        m.define_unique_identifier(kind, name, *attrs)
+    for kind, attrs in schema.classes:
+        for row in pop.rows[kind]:
+            m.new(kind, **dict(row))
+    asses = []
+    for r in schema.rops:
+        asses.append(m.define_association(r.rel, r.src, list(r.src_keys), 'M' in r.src_card, 'C' in r.src_card,
+                                          r.src_phrase, r.tgt, list(r.tgt_keys), 'M' in r.tgt_card,
+                                          'C' in r.tgt_card, r.tgt_phrase))
+    for ass in asses:
+        ass.batch_relate()
+    for ass in asses:
+        ass.formalize()
+    try:
+        check_join(ctx, schema, pop, m, expected, 'Join.api-batch-relate')
+    except Mismatch as e:
+        raise Mismatch('api-batch-relate/%s' % e.key.split('/')[-1], e.what)
 
 
 def known_witness(ctx):
@@ -515,6 +564,7 @@ def run(ctx):
             case = dict(schema=schema.describe(), rows=pop.rows)
             try:
                 expected, nontrivial, m0 = loader_checks(ctx, rng, schema, pop, tmpdir)
+                batch_checks(ctx, schema, pop, expected)
                 if sqlgen.chained(schema):
                     # a key chain: an instance created through the API cannot hold a dangling referential value
                     # (it is derived from the link), so instances referring to that attribute find nothing to
